@@ -17,25 +17,31 @@ import coqcheck
 
 BOUNDED = ['lfu', 'lru', 'mru', 'rr']
 
+B3 = ['lfu', 'lru', 'mru', 'rr'] * 3
 SPECS = {
-    'C01': dict(quick=(360, 70), thorough=(6000, 110), focus={}),
-    'C02': dict(quick=(360, 70), thorough=(6000, 110),
-                focus={'weights': {'clear': 1, 'setarch': 1, 'archived': 1, 'archset': 6}, 'p_prologue': 0.5}),
-    'C05': dict(quick=(420, 60), thorough=(8000, 100),
-                focus={'weights': {'load': 9, 'archset': 8, 'clear': 1}, 'p_prologue': 0.6, 'p_special': 0.15}),
-    'C06': dict(quick=(360, 140), thorough=(6000, 220),
+    'C01': dict(quick=(900, 70), thorough=(12000, 110), focus={'p_twin': 0.3}),
+    'C02': dict(quick=(1000, 70), thorough=(12000, 110),
+                focus={'weights': {'clear': 0.5, 'setarch': 0.5, 'archived': 0.5, 'archset': 6}, 'p_prologue': 0.5,
+                       'p_detach': 0.03, 'p_restage': 0.03, 'algs': ['no', 'inf'] + B3,
+                       'backends': ['plain', 'dictarch', 'dictarch', 'dictarch', 'dictarch', 'file', 'dir', 'sql', 'null'],
+                       'maxsizes': [1, 1, 2, 2, 3, 3, 4, 5]}),
+    'C05': dict(quick=(1000, 60), thorough=(12000, 100),
+                focus={'weights': {'load': 9, 'archset': 8, 'clear': 1}, 'p_prologue': 0.6, 'p_special': 0.15,
+                       'algs': ['no', 'inf'] + B3, 'p_detach': 0.2, 'maxsizes': [1, 1, 2, 2, 3, 4, 5, 10]}),
+    'C06': dict(quick=(800, 140), thorough=(10000, 220),
                 focus={'algs': BOUNDED, 'maxsizes': [1, 1, 2, 2, 3, 4, 5], 'p_special': 0.05, 'p_raising': 0.1,
                        'weights': {'call': 90, 'load': 1, 'dump': 1, 'clear': 0.3, 'archived': 0.5, 'setarch': 0.3,
                                    'archset': 1, 'lookup': 1, 'key': 1, 'info': 1}, 'p_prologue': 0.1}),
-    'C07': dict(quick=(360, 70), thorough=(6000, 110),
+    'C07': dict(quick=(900, 70), thorough=(12000, 110),
                 focus={'backends': ['dictarch', 'dictarch', 'dictarch', 'file', 'dir', 'sql'],
-                       'algs': ['no'] + BOUNDED + ['inf'], 'maxsizes': [1, 2, 2, 3, 4, 5],
-                       'weights': {'clear': 1, 'setarch': 1, 'archived': 1}}),
-    'C15': dict(quick=(360, 70), thorough=(6000, 110), focus={'weights': {'clear': 5, 'info': 6}}),
-    'C16': dict(quick=(420, 60), thorough=(8000, 100),
-                focus={'p_raising': 0.9, 'p_special': 0.8, 'keymaps': ['hash', 'raw', 'raw', 'str', 'pickle', 'md5',
-                                                                         'default', 'raw-nf', 'str-nf']}),
-    'C18': dict(quick=(360, 60), thorough=(6000, 100),
+                       'algs': ['no', 'no'] + BOUNDED * 2 + ['inf'], 'maxsizes': [1, 2, 2, 3, 4, 5],
+                       'weights': {'clear': 1, 'setarch': 1, 'archived': 1}, 'p_restage': 0.25}),
+    'C15': dict(quick=(800, 70), thorough=(10000, 110), focus={'weights': {'clear': 5, 'info': 6}}),
+    'C16': dict(quick=(1000, 60), thorough=(12000, 100),
+                focus={'p_raising': 0.9, 'p_special': 0.85,
+                       'keymaps': ['hash', 'raw', 'raw', 'str', 'pickle', 'md5', 'default', 'raw-nf', 'str-nf',
+                                   'pickle-std', 'pickle-std', 'pickle-std']}),
+    'C18': dict(quick=(800, 60), thorough=(10000, 100),
                 focus={'weights': {'lookup': 14, 'key': 10, 'info': 4}, 'p_special': 0.4}),
 }
 
